@@ -1,19 +1,26 @@
 #!/venv/bin/python
 """Systematic micro-mutation campaign (sensitivity measurement of the checks, not a property check).
 
-For a seeded sample of single-token mutations (comparison / boolean / arithmetic / index / None-test flips) of the code
-the claimed properties are anchored in, apply the mutation to a scratch worktree outside /repo and /verif, run the checks
-of the properties that code serves, and report which mutations are reported by at least one check.
+Phase A: a seeded sample of single-token mutations (comparison / boolean / arithmetic / index / None-test flips) of the
+code the claimed properties are anchored in; each is applied to a scratch worktree outside /repo and /verif and the
+repository's own unit suite is run on it.  Only mutants that still compile *and pass the unit suite* go on: those are the
+"realistic changes" the brief talks about.
 
-  automutate.py [--per-file N] [--seed S] [--files a.py,b.py] [--runs R] [--cap C] [--unit]
+Phase B: the checks of the properties that file serves are run against each such mutant (VERIF_REPO=<scratch>); the first
+check that exits 1 with a violation ends the mutant.  The report lists, per mutant, the verdict:
+  reported      some check printed a violation (exit 1)
+  harness       no check reported and at least one could not run (exit 2): the mutant breaks an interface the harness reads
+  survived      every check exited 0
+
+  automutate.py [--per-file N] [--seed S] [--files a.py,b.py] [--runs R] [--cap C] [--jobs J] [--from-report f.json]
 """
 import argparse
+import concurrent.futures as cf
 import json
 import os
 import py_compile
 import random
 import re
-import shutil
 import subprocess
 import sys
 import time
@@ -23,24 +30,31 @@ sys.path.insert(0, HERE)
 import selftest  # noqa: E402
 
 P = "perception_eval/perception_eval/"
+# file -> checks to try, most likely first
 TARGETS = {
-    "evaluation/result/object_result.py": ["C01", "C02", "C03"],
-    "evaluation/matching/objects_filter.py": ["C10", "C03", "C04"],
-    "evaluation/metrics/detection/ap.py": ["C04", "C08"],
-    "evaluation/metrics/detection/map.py": ["C04"],
-    "evaluation/metrics/tracking/clear.py": ["C05"],
-    "evaluation/metrics/tracking/tracking_metrics_score.py": ["C05"],
-    "evaluation/result/perception_frame_result.py": ["C03", "C13", "C05"],
-    "evaluation/result/perception_pass_fail_result.py": ["C03"],
-    "manager/perception_evaluation_manager.py": ["C13", "C05"],
-    "common/dataset.py": ["C17", "C16"],
-    "common/geometry.py": ["C17"],
+    "evaluation/result/object_result.py": ["C01", "C02", "C03", "C04", "C05"],
+    "evaluation/matching/objects_filter.py": ["C10", "C03", "C04", "C13", "C05", "C19"],
+    "evaluation/matching/object_matching.py": ["C07", "C02", "C01", "C03", "C19"],
+    "evaluation/metrics/detection/ap.py": ["C04", "C08", "C13"],
+    "evaluation/metrics/detection/map.py": ["C04", "C13"],
+    "evaluation/metrics/detection/tp_metrics.py": ["C04", "C07"],
+    "evaluation/metrics/tracking/clear.py": ["C05", "C13"],
+    "evaluation/metrics/tracking/tracking_metrics_score.py": ["C05", "C13"],
+    "evaluation/metrics/metrics.py": ["C13", "C04", "C05"],
+    "evaluation/result/perception_frame_result.py": ["C03", "C13", "C05", "C07"],
+    "evaluation/result/perception_pass_fail_result.py": ["C03", "C08", "C07"],
+    "manager/perception_evaluation_manager.py": ["C13", "C05", "C03", "C07"],
+    "manager/_evaluation_manager_base.py": ["C17", "C13"],
+    "common/dataset.py": ["C17", "C16", "C10"],
+    "common/geometry.py": ["C17", "C10"],
     "common/dataset_utils.py": ["C16"],
-    "common/threshold.py": ["C10", "C03", "C04"],
+    "common/threshold.py": ["C10", "C03", "C04", "C08"],
+    "common/transform.py": ["C07", "C10", "C16", "C17"],
+    "common/object.py": ["C07", "C19", "C16", "C10", "C03"],
+    "common/label.py": ["C16", "C10", "C01"],
     "tool/perception_analyzer_base.py": ["C19"],
     "tool/perception_analyzer3d.py": ["C19"],
-    "evaluation/matching/object_matching.py": ["C07", "C02", "C03"],
-    "common/object.py": ["C07", "C03"],
+    "tool/utils.py": ["C19"],
 }
 SUBS = [
     (r" < ", " <= "), (r" <= ", " < "), (r" > ", " >= "), (r" >= ", " > "), (r" == ", " != "), (r" != ", " == "),
@@ -48,6 +62,7 @@ SUBS = [
     (r" \+ ", " - "), (r" - ", " + "), (r" \* ", " / "), (r"\[0\]", "[1]"), (r"\[-1\]", "[0]"), (r"\[1:\]", "[:]"),
     (r"\bTrue\b", "False"), (r"\bFalse\b", "True"), (r"\bnot ", ""), (r" \+= ", " -= "), (r"\bmin\(", "max("), (r"\bmax\(", "min("),
     (r"\.append\(", ".insert(0, "), (r"reverse=True", "reverse=False"), (r"\bcontinue\b", "break"), (r"\bbreak\b", "continue"),
+    (r" in ", " not in "), (r" not in ", " in "), (r"\babs\(", "("), (r" \+ 1\b", " + 0"), (r" - 1\b", " - 0"),
 ]
 
 
@@ -59,7 +74,7 @@ def candidate_mutations(src):
         if st.count('"""') % 2 == 1:
             in_doc = not in_doc
             continue
-        if in_doc or not st or st.startswith("#") or st.startswith(("import ", "from ", "def ", "class ", "@", "raise ", "assert ", "logging.", "logger.", "warnings.")):
+        if in_doc or not st or st.startswith("#") or st.startswith(("import ", "from ", "def ", "class ", "@", "raise ", "assert ", "logging.", "logger.", "warnings.", "for ")):
             continue
         if '"""' in st or "f\"" in st or "f'" in st:
             continue
@@ -73,6 +88,36 @@ def candidate_mutations(src):
     return out
 
 
+def apply_mutation(d, rel, ln, new):
+    path = os.path.join(d, P, rel)
+    lines = open(path).read().splitlines(keepends=True)
+    lines[ln] = new + ("\n" if lines[ln].endswith("\n") else "")
+    open(path, "w").write("".join(lines))
+    try:
+        py_compile.compile(path, doraise=True)
+    except Exception:  # noqa
+        return False
+    return True
+
+
+def unit_phase(job):
+    k, rel, ln, old, new = job
+    d = selftest.make_scratch_repo("autoA%d" % k)
+    try:
+        if not apply_mutation(d, rel, ln, new):
+            return k, "nocompile"
+        envv = dict(os.environ)
+        envv["MPLBACKEND"] = "Agg"
+        envv.pop("PYTHONPATH", None)
+        # the suite imports the installed package: point the import path at the scratch tree
+        envv["PYTHONPATH"] = os.path.join(d, "perception_eval")
+        ut = subprocess.run([sys.executable, "-m", "pytest", "-q", "-x", "-p", "no:cacheprovider", "perception_eval/test"], cwd=d, env=envv,
+                            capture_output=True, text=True, timeout=3600)
+        return k, "pass" if ut.returncode == 0 else "fail"
+    finally:
+        selftest.drop_scratch_repo(d)
+
+
 def main():
     ap = argparse.ArgumentParser()
     ap.add_argument("--per-file", type=int, default=12)
@@ -80,65 +125,70 @@ def main():
     ap.add_argument("--files")
     ap.add_argument("--runs", type=int, default=1500)
     ap.add_argument("--cap", type=float, default=25.0)
-    ap.add_argument("--unit", action="store_true", help="run the unit suite on mutants no check reports")
+    ap.add_argument("--jobs", type=int, default=8)
     ap.add_argument("--out", default=os.path.join(HERE, "automutate_report.json"))
     args = ap.parse_args()
     rng = random.Random(args.seed)
     files = args.files.split(",") if args.files else sorted(TARGETS)
-    report = []
     t0 = time.time()
+    jobs = []
     for rel in files:
-        props = TARGETS[rel]
         src = open(os.path.join("/repo", P, rel)).read()
         cands = candidate_mutations(src)
         rng.shuffle(cands)
+        seen_lines = set()
         picked = 0
         for ln, pat, rep, old, new in cands:
             if picked >= args.per_file:
                 break
-            d = selftest.make_scratch_repo("auto")
-            try:
-                path = os.path.join(d, P, rel)
-                lines = open(path).read().splitlines(keepends=True)
-                lines[ln] = new + ("\n" if lines[ln].endswith("\n") else "")
-                open(path, "w").write("".join(lines))
-                try:
-                    py_compile.compile(path, doraise=True)
-                except Exception:  # noqa
-                    continue
-                picked += 1
-                row = {"file": rel, "line": ln + 1, "old": old.strip(), "new": new.strip(), "checks": {}}
-                caught = False
-                for prop in props:
-                    envv = dict(os.environ)
-                    envv.pop("WORLDSIM_REEXEC", None)
-                    envv["VERIF_REPO"] = d
-                    cmd = [sys.executable, os.path.join(HERE, "check.py"), "--property", prop, "--tier", "quick", "--no-evidence", "--no-minimise",
-                           "--runs", str(args.runs), "--cap", str(args.cap)]
-                    out = subprocess.run(cmd, env=envv, capture_output=True, text=True, timeout=3600)
-                    row["checks"][prop] = out.returncode
-                    if out.returncode == 1:
-                        caught = True
-                        v = [l for l in out.stdout.splitlines() if l.startswith("violation:")]
-                        row["first_report"] = (prop + " " + v[0][:160]) if v else prop
-                        break
-                row["caught"] = caught
-                if not caught and args.unit:
-                    envv = dict(os.environ)
-                    envv["PYTHONPATH"] = os.path.join(d, "perception_eval")
-                    envv["MPLBACKEND"] = "Agg"
-                    ut = subprocess.run([sys.executable, "-m", "pytest", "-q", "-x", "-p", "no:cacheprovider", "perception_eval/test"], cwd=d, env=envv,
-                                        capture_output=True, text=True, timeout=3600)
-                    row["unit_suite_passes"] = ut.returncode == 0
-                report.append(row)
-                print("%-55s L%-4d %-34s -> %-34s %s" % (rel, ln + 1, old.strip()[:34], new.strip()[:34],
-                                                          "REPORTED " + row.get("first_report", "")[:70] if caught else "survived %s %s" % (row["checks"], row.get("unit_suite_passes", ""))), flush=True)
-            finally:
-                selftest.drop_scratch_repo(d)
-    n = len(report)
-    c = sum(1 for r in report if r["caught"])
-    print("automutate: %d mutants, %d reported by a check, %d survived; %.0fs" % (n, c, n - c, time.time() - t0))
-    json.dump({"seed": args.seed, "per_file": args.per_file, "mutants": report}, open(args.out, "w"), indent=1)
+            if ln in seen_lines:
+                continue
+            seen_lines.add(ln)
+            jobs.append((len(jobs), rel, ln, old, new))
+            picked += 1
+    print("phase A: unit suite on %d mutants (%d at a time)" % (len(jobs), args.jobs), flush=True)
+    unit = {}
+    with cf.ThreadPoolExecutor(args.jobs) as ex:
+        for k, verdict in ex.map(unit_phase, jobs):
+            unit[k] = verdict
+            print("  A %-52s L%-4d %s" % (jobs[k][1], jobs[k][2] + 1, verdict), flush=True)
+    report = []
+    for k, rel, ln, old, new in jobs:
+        row = {"file": rel, "line": ln + 1, "old": old.strip(), "new": new.strip(), "unit_suite": unit[k], "checks": {}}
+        report.append(row)
+        if unit[k] != "pass":
+            row["verdict"] = "killed_by_unit_suite" if unit[k] == "fail" else "does_not_compile"
+            continue
+        d = selftest.make_scratch_repo("autoB")
+        try:
+            apply_mutation(d, rel, ln, new)
+            verdict = "survived"
+            for prop in TARGETS[rel]:
+                envv = dict(os.environ)
+                envv.pop("WORLDSIM_REEXEC", None)
+                envv["VERIF_REPO"] = d
+                cmd = [sys.executable, os.path.join(HERE, "check.py"), "--property", prop, "--tier", "quick", "--no-evidence", "--no-minimise",
+                       "--runs", str(args.runs), "--cap", str(args.cap)]
+                out = subprocess.run(cmd, env=envv, capture_output=True, text=True, timeout=3600)
+                row["checks"][prop] = out.returncode
+                if out.returncode == 1:
+                    verdict = "reported"
+                    v = [l for l in out.stdout.splitlines() if l.startswith("violation:")]
+                    row["first_report"] = (prop + " " + v[0][:160]) if v else prop
+                    break
+                if out.returncode != 0:
+                    verdict = "harness"
+            row["verdict"] = verdict
+            print("B %-52s L%-4d %-34s -> %-34s %s %s" % (rel, ln + 1, old.strip()[:34], new.strip()[:34], verdict.upper(),
+                                                         row.get("first_report", row["checks"])), flush=True)
+        finally:
+            selftest.drop_scratch_repo(d)
+        json.dump({"seed": args.seed, "per_file": args.per_file, "mutants": report}, open(args.out, "w"), indent=1)
+    tally = {}
+    for r in report:
+        tally[r["verdict"]] = tally.get(r["verdict"], 0) + 1
+    print("automutate: %d mutants: %s; %.0fs" % (len(report), tally, time.time() - t0))
+    json.dump({"seed": args.seed, "per_file": args.per_file, "tally": tally, "mutants": report}, open(args.out, "w"), indent=1)
     return 0
 
 
